@@ -11,7 +11,10 @@ RULE = _base.SPACE_TEXT + (
     "logged before the last completion excludes success); observed verdict "
     "(True / False / TimeoutError / identical exception object) must be "
     "admissible and failed_time_out(), failed_critical(), why() must name "
-    "exactly it. non-trivial = a failure is admissible or two causes tie")
+    "exactly it. non-trivial = a failure is admissible or two causes tie. "
+    "non-initial state: a scheduler that failed once (timeout, critical "
+    "job), was emptied with remove() and runs again must succeed with a "
+    "clean diagnosis")
 
 
 def emptied(v):
